@@ -464,7 +464,7 @@ def _nonneg_poly(p):
         if c < 0:
             return False
         for a, e in m:
-            if not (isinstance(a, App) and a.fn in NONNEG_FNS) and not (e % 2 == 0):
+            if not (isinstance(a, App) and a.fn in NONNEG_FNS) and not (isinstance(a, Sym) and "nonneg" in a.tags) and not (e % 2 == 0):
                 return False
     return True
 
